@@ -111,6 +111,8 @@ def invoking_ruleset_rule(ctx):
 
 
 def run(ctx):
+    from .C12 import ruleset_settings_text
+    ruleset_settings_text(ctx)
     invoking_ruleset_rule(ctx)
     detector_walk_every_tick(ctx, "C05")
     # locals / parameters the rules below refer to by name (a rename makes the analysis 'broken', never a violation)
